@@ -12,6 +12,7 @@ mod bfs;
 mod corpus;
 mod readers;
 mod devices;
+mod gspace;
 
 use crate::core::{Acc, Ctx};
 use serde_json::{json, Value};
